@@ -678,3 +678,44 @@ def c08_big(**p):
         c.oblige("same-graph-from-v2000-and-v3000", key(g2) == key(g3) and g2.number_of_nodes() == n)
         c.oblige("same-tucan-string", tucan_of(g2) == tucan_of(g3))
     return body
+
+
+# ---------------------------------------------------------------------------
+# C02 at reader level: the string of a molecule read from a file decodes (independent reader) to that molecule
+
+def c02_reader(**p):
+    from harness.pipeline import dom, ref_decode, iso_condition
+
+    def body(c):
+        shadows(c)
+        mol = dom(c, p)
+        n = mol.n
+        blist = sorted(mol.bonds)
+        fmt = p.get("fmt", "v3000")
+        if fmt == "v3000":
+            atoms = [A3(a + 1, mol.elements[a], (0.0, 0.0, 0.0), ([("MASS", mol.mass[a])] if mol.mass[a] is not None else []) + ([("RAD", mol.rad[a])] if mol.rad[a] is not None else []))
+                     for a in range(n)]
+            text = v3000_text(atoms, [B3(k + 1, 1, a + 1, b + 1) for k, (a, b) in enumerate(blist)])
+        else:
+            al = [v2000_atom_line(mol.elements[a]) for a in range(n)]
+            bl = [v2000_bond_line(a + 1, b + 1, 1) for (a, b) in blist]
+            rad_e = [(a + 1, mol.rad[a]) for a in range(n) if mol.rad[a] is not None]
+            iso_e = [(a + 1, mol.mass[a]) for a in range(n) if mol.mass[a] is not None]
+            pl = [v2000_prop_line("RAD", [e]) for e in rad_e] + [v2000_prop_line("ISO", [e]) for e in iso_e]      # one entry per line
+            if p.get("iso_first"):
+                pl = [v2000_prop_line("ISO", [e]) for e in iso_e] + [v2000_prop_line("RAD", [e]) for e in rad_e]
+            text = v2000_text(al, bl, pl)
+        s = tucan_of(T()["read"](text))
+        c.note("mol", mol.describe())
+        c.note("molfile", text)
+        c.note("tucan", s)
+        try:
+            el, bonds, attrs, conds = ref_decode(s)
+        except Exception as e:
+            c.oblige("reference-decoder-accepts", False, repr(e))
+            return
+        mass2 = [attrs.get(i, {}).get("mass") for i in range(len(el))]
+        rad2 = [attrs.get(i, {}).get("rad") for i in range(len(el))]
+        cond, nphi = iso_condition(n, el, bonds, mass2, rad2, mol.elements, list(mol.bonds), mol.mass, mol.rad)
+        c.oblige("decoded-graph-isomorphic-to-the-molecule-in-the-file", cond)
+    return body
